@@ -162,6 +162,7 @@ DomSerialize(cmap, t) ==
   IF ~OHas(t.opts, K_enc) \/ OGet(t.opts, K_enc).t # "str" THEN [status |-> "unspec", bytes |-> <<>>]
   ELSE IF OHas(t.opts, K_ver) /\ OGet(t.opts, K_ver).s # V_10 THEN [status |-> "raises", bytes |-> <<>>]
   ELSE IF extraMain THEN [status |-> "unknownkw", bytes |-> <<>>]
+  ELSE IF ~ValueName(EncArg(cmap, t.opts).name) THEN [status |-> "raises", bytes |-> <<>>]   \* the constructor's header
   ELSE LET r == RunAll(WInit(EncArg(cmap, t.opts)), tc.calls, 1) IN
        IF tc.unk THEN [status |-> "unknownkw", bytes |-> <<>>]
        ELSE IF r.ok THEN [status |-> "ok", bytes |-> r.st.out] ELSE [status |-> "raises", bytes |-> <<>>]
